@@ -563,15 +563,15 @@ let () =
              let dn = nat (x0.dim + 1) in
              report ("op:" ^ name ^ "/dd") line (of_ob true (timed (fun () -> dd_pair (nat st.sdim) st.scons st.sgens) None));
              report ("op:" ^ name ^ "/OK") line (if st.sok = 1 then Ok else Fail "OK() returned false");
-             let meet_ne = timed (fun () -> nonempty_sys dn (union_sys x0.s y.s)) None in
+             let meet_ne = timed (fun () -> suc_flag dn x0.s y.s) None in
              (match !ret, meet_ne with
               | Some v, Some b -> report ("op:" ^ name ^ "/ret") line (if b = (v = "1") then Ok else Fail (Printf.sprintf "returned %s but the meet with the context is %s" v (if b then "non-empty" else "empty")))
               | _, None -> report ("op:" ^ name ^ "/ret") line Undecided
               | _ -> ());
              (match meet_ne with
               | Some true ->
-                report ("op:" ^ name ^ "/value") line (of_ob true (timed (fun () -> incl_sys dn x0.s rs) None));
-                report ("op:" ^ name ^ "/value") line (of_ob true (timed (fun () -> equiv_sys dn (union_sys rs y.s) (union_sys x0.s y.s)) None))
+                (* theorem C02_simplify_using_context: true iff the result is a meet-preserving enlargement *)
+                report ("op:" ^ name ^ "/value") line (of_ob true (timed (fun () -> suc_check dn x0.s y.s rs) None))
               | _ -> ());
              resync id0 st
            | Skip why ->
